@@ -391,6 +391,84 @@ def rdm_rule(chk, src):
     chk.ob("rdm-network", "1-site and 2-site RDM use one index convention", ok, f2.where, {f"{k[0]}/{k[1]}": v for k, v in conv.items()}, "conjugated indices first in both", line=f2.node.lineno)
 
 
+
+# ------------------------------------------------------------------------------------------ cached observable operators, electronic RDM, entropy formula
+def observable_rule(chk, src):
+    from ..syminterp import SymInterp, Sym, Blob
+    from collections import deque
+    # 1. one cache key per operator list
+    keys = {}
+    for fi in src.funcs_in(MPS):
+        if fi.parent is not None or ".mpos" not in unparse(fi.node):
+            continue
+        lits = sorted({n.value for st in ast.walk(fi.node) if isinstance(st, ast.Assign) and isinstance(st.targets[0], ast.Name) and isinstance(st.value, ast.Constant)
+                       and isinstance(st.value.value, str) for n in [st.value] if any(isinstance(x, ast.Subscript) and unparse(x.value).endswith(".mpos") and unparse(x.slice) == st.targets[0].id
+                                                                                    for x in ast.walk(fi.node))})
+        for k in lits:
+            keys.setdefault(k, []).append(fi.qual)
+    dup = {k: v for k, v in keys.items() if len(v) > 1}
+    chk.ob("observable-cache", "every cached operator list has its own key in Model.mpos", bool(keys) and not dup, MPS, dup or sorted(keys), "distinct keys", detail="two observables sharing a cache key: "
+           "whichever is evaluated second silently receives the other's operators")
+    # 2. electronic reduced density matrix: operators generated and consumed in the same (upper-triangle, row-major) order; lower triangle = conjugate
+    fi = src.func(MPS, "Mps.calc_edof_rdm")
+    for n_e in (1, 2, 4):
+        cells = {}
+
+        class Mat(Sym):
+            def __setitem__(self, k, v):
+                cells[k] = v
+
+            def __getitem__(self, k):
+                return cells[k]
+        e_dofs = [f"e{i}" for i in range(n_e)]
+        model = Sym("model", n_edofs=n_e, e_dofs=e_dofs, mpos={})
+        me = Sym("mps", model=model, expectations=lambda mpos: [("<", m, ">") for m in mpos])
+        it = SymInterp(src, None, {"Op": lambda sym, dofs, *a, **k: ("Op", sym, tuple(dofs)), "Mpo": lambda model_, terms=None, **k: ("Mpo", terms), "deque": deque,
+                                   "np": Sym("np", zeros=lambda shape, dtype=None: Mat("rdm"), conj=lambda x: ("conj", x)), "backend": Blob("backend")})
+        out = it.call_function(fi, [me])
+        want = {}
+        for i in range(n_e):
+            for j in range(i, n_e):
+                v = ("<", ("Mpo", ("Op", "a^\\dagger a", (f"e{i}", f"e{j}"))), ">")
+                want[(i, j)] = v
+                want[(j, i)] = v if i == j else ("conj", v)
+        if n_e and want.get((0, 0)) and cells.get((0, 0)) == ("conj", want[(0, 0)]):
+            cells = {k: (v[1] if k[0] == k[1] and isinstance(v, tuple) and v[0] == "conj" else v) for k, v in cells.items()}    # conj of a (real) diagonal element is the element
+        chk.ob("observable-cache", f"calc_edof_rdm[{n_e} electronic dofs]: rho[i, j] = <a_i^dagger a_j>, rho[j, i] its conjugate", isinstance(out, Mat) and cells == want, fi.where,
+               {str(k): repr(v)[:60] for k, v in cells.items() if want.get(k) != v} or "all entries", "upper triangle in generation order, lower triangle conjugated", line=fi.node.lineno,
+               detail="the operators are generated for the pairs (i <= j) in row-major order and their expectation values are consumed from a queue in the same order")
+    # 3. von Neumann entropy
+    fe = src.func("renormalizer/utils/utils.py", "calc_vn_entropy")
+
+    class P(Sym):
+        def sum(self):
+            return P(f"sum({self._name})")
+
+        def __truediv__(self, o):
+            return P(f"({self._name})/({o!r})")
+
+        def __lt__(self, o):
+            return P(f"[{self._name}<{o!r}]")
+
+        def __gt__(self, o):
+            return P(f"[{self._name}>{o!r}]")
+
+        def __getitem__(self, m):
+            return P(f"{self._name}{m!r}")
+
+        def __mul__(self, o):
+            return P(f"({self._name})*({o!r})")
+
+        def __neg__(self):
+            return P(f"-({self._name})")
+    it = SymInterp(src, None, {"np": Sym("np", array=lambda x: x, allclose=lambda *a: True, log=lambda x: P(f"log({x!r})"))})
+    out = it.call_function(fe, [P("p")])
+    norm = "(p)/(sum(p))"
+    kept = f"{norm}[{norm}>0]"
+    chk.ob("observable-cache", "calc_vn_entropy = - sum p ln p over the positive, normalised eigenvalues", repr(out) == f"-(sum(({kept})*(log({kept}))))", fe.where, repr(out), "-(sum(q * log(q))) with q = p/sum(p) restricted to q > 0",
+           line=fe.node.lineno, detail="entropy of a spectrum: normalise, drop zeros (0 ln 0 = 0), natural logarithm, minus sign")
+
+
 def run(chk):
     src = chk.src
     chk.explanation = (
@@ -415,6 +493,8 @@ def run(chk):
     kernel_arg_rule(chk, src)
     freq_bound_rule(chk, src)
     rdm_rule(chk, src)
+    chk.rule("observable-cache", "per-model operator cache keys, electronic RDM assembly order, entropy formula (abstract runs)", 5)
+    observable_rule(chk, src)
 
 
 META = {
